@@ -147,8 +147,20 @@ def run_transform_case(sname, cfg, pname, seed, tier, res=None, only=None):
     blist = list(batches(npool, maxlen))
     for direction in ("forward", "inverse"):
         if direction not in ref or any(r is None for r in ref[direction]):
-            if res is not None and direction in ref:
-                bump(res["skipped"], "singleton %s raises (C02/C17's subject)" % direction)
+            if direction in ref and not any(v["case"]["direction"] == direction for v in vio):
+                # a row that cannot be evaluated alone: if the same rows evaluate together, the result depends on the batch
+                # (batch size one is part of the property); if they fail together too, it is another property's subject
+                src_ = ref[direction + "_src"]
+                try:
+                    call(getattr(m, direction), src_, CT)
+                    together = True
+                except Exception:
+                    together = False
+                if together:
+                    i_bad = [i for i, r in enumerate(ref[direction]) if r is None][0]
+                    vio.append(_v(sname, sig, direction, "row depends on the rest of the batch", cfg, pname, seed, (i_bad,), "%s raises on pool row %d alone but evaluates the same row inside the batch of all pool rows" % (direction, i_bad)))
+                elif res is not None:
+                    bump(res["skipped"], "singleton %s raises (C02/C17's subject)" % direction)
             continue
         src = ref[direction + "_src"]
         for b in blist:
